@@ -5,7 +5,7 @@
 (* objects and of the class-level lists plus the expected outcome class.      *)
 EXTENDS Container, Json
 
-CONSTANTS Slice,     \* "ops" | "hist" | "copy" | "sim" | "opsx" | "simx"
+CONSTANTS Slice,     \* "ops" | "hist" | "copy" | "sim" | "opsx" | "simx" | "near"
           Kinds,     \* initial configurations explored: subset of {"container", "hist2", "model", "linker", "nested"}
           SpanL,     \* span length
           Shard, NShards,
@@ -140,6 +140,9 @@ MCAlphabet(O, k) ==
   CASE Slice = "ops"  -> IF k = 0 THEN PrefixOps(O, 1) ELSE UNION {FullOps(O, o) : o \in Roots(O)}
     [] Slice = "hist" -> IF Budget >= 4 THEN HistOps4(O, 1) ELSE HistOps(O, 1)
     [] Slice = "copy" -> IF NoCopyYet(O) THEN (IF k = Budget - 1 THEN CopyOps(O) ELSE AllMut(O) \cup CopyOps(O)) ELSE AllMut(O)
+       (* K-near: strict mode; near misses of a variable before and after it is added at run time *)
+    [] Slice = "near" -> IF k = 0 THEN {ToggleStrict(1)}
+                         ELSE {SetAttr(1, "Nn", SInt), SetAttr(1, NearName(O[1]), SInt), AddVariable(1, "N", SHalf, "i"), AddVariable(1, "N", SInt, "")}
     [] Slice = "opsx" -> IF k = 0 THEN PrefixOps(O, 1) ELSE AllMut(O) \cup AllCopies(O)      \* C11: independence-relevant operations only
     [] Slice = "simx" -> LET S == {op \in AllMut(O) \cup AllCopies(O) : Legal(O, op)}
                          IN  IF S = {} THEN {} ELSE {RandomElement(S)}
